@@ -62,9 +62,9 @@ Qed.
 Print Assumptions C01_latitude_fixed_point.
 
 (* geodetic -> ECEF -> geodetic, whenever the loop returns: longitude exact, latitude in range, and the
-   height is exact as soon as the latitude is.   _partial: that the loop returns a latitude within
-   1e-9 rad of the true one is not proved over the whole domain (see C01_latitude_exit_error for the
-   conditional bound); the oracle measures it on the implementation. *)
+   height is exact as soon as the latitude is.   _partial: on this wide domain (any 0 <= e2 < 1, any height above
+   -a(1-e2)) neither the return of the loop nor the 1e-9 rad / 1 mm accuracy is proved; both ARE proved on the
+   near-Earth domain by C01_roundtrip_geodetic_accuracy / C01_latitude_loop_terminates / C01_roundtrip_geodetic below. *)
 Theorem C01_roundtrip_geodetic_partial : forall (el : ellipsoid (T:=R)) fuel lat lon h g,
   0 < el_a el -> 0 <= el_e2 el < 1 ->
   - PI / 2 < lat < PI / 2 -> - PI < lon <= PI -> - el_a el * (1 - el_e2 el) < h ->
@@ -99,7 +99,9 @@ Proof. exact ecef_eps_bounds. Qed.
 Print Assumptions C01_epsilon_from_source.
 
 (* conditional accuracy of the exit: q-Lipschitz body between the last iterate and the fixed point
-   ==> error <= q*eps/(1-q).   _partial: q (about e2) is a premise, not proved over the domain. *)
+   ==> error <= q*eps/(1-q).   _partial: abstract lemma in which q is a premise; the premise is discharged with
+   q = 1.04 e2 on the near-Earth domain by C01_latitude_contraction, and the combination is
+   C01_roundtrip_latitude_accuracy below. *)
 Theorem C01_latitude_exit_error_partial : forall (g : R -> R) q eps x fx,
   0 <= q < 1 -> g fx = fx -> Rabs (g x - g fx) <= q * Rabs (x - fx) -> Rabs (g x - x) <= eps ->
   Rabs (g x - fx) <= q * eps / (1 - q).
@@ -148,6 +150,155 @@ Proof.
   split; [cbn; lra|]. split; [exact E|]. split; [lra|]. split; [lra|].
   change (el_a (make_ellipsoid ROps 6378137 (6356752314 * / 1000))) with 6378137. nra.
 Qed.
+
+(* ================================================================== convergence of the latitude iteration
+   Loop body (ECEFConverter.cpp:70-75), Z and norm fixed:  g(lat) = atan((Z/norm)/D(lat)),
+   D(lat) = 1 - a e2 cos(lat)/(norm W(lat)),  W(lat) = sqrt(1 - e2 sin^2 lat).
+   Near-Earth domain of the theorems below: 0 < a, 0 <= e2 <= 1/100 (GRS80: 0.0067), -PI/2 < lat < PI/2, h >= -a/100
+   (a superset of the property's domain: flattening <= 1/290 gives e2 < 0.0069, h >= -11 km > -a/100). *)
+From Coquelicot Require Import Coquelicot.
+From Romea Require Import GeodesyContraction GeodesyRoundtrip.
+
+(* 1. derivative of the body wherever its denominator does not vanish (at D = 0 the C++ evaluates atan(+-inf) and the
+   map jumps between +-PI/2: it is not even continuous there) *)
+Theorem C01_latitude_body_derivative : forall (el : ellipsoid (T:=R)) Z norm lat,
+  0 <= el_e2 el < 1 -> 0 < norm ->
+  let a := el_a el in let e2 := el_e2 el in
+  let W := sqrt (1 - e2 * sin lat * sin lat) in
+  let D := 1 - a * e2 * cos lat / (norm * W) in
+  D <> 0 ->
+  is_derive (lat_body ROps el Z norm) lat
+    (- (Z * (e2 * a * (1 - e2)) * sin lat) / (W * W * W * ((norm * D) * (norm * D) + Z * Z))).
+Proof. intros el Z norm lat He2 Hn. exact (lat_body_is_derive el He2 Z norm Hn lat). Qed.
+Print Assumptions C01_latitude_body_derivative.
+
+(* its absolute value is at most e2 a / (sqrt(1-e2) (|p| - e2 a)) at EVERY latitude, for every Cartesian point
+   p = (norm, Z) farther than e2 a (43 km) from the centre *)
+Theorem C01_latitude_body_derivative_bound : forall (el : ellipsoid (T:=R)) Z norm lat,
+  0 < el_a el -> 0 <= el_e2 el < 1 -> 0 < norm -> el_e2 el * el_a el < sqrt (norm * norm + Z * Z) ->
+  Rabs (lat_body_deriv el Z norm lat)
+  <= el_e2 el * el_a el / (sqrt (1 - el_e2 el) * (sqrt (norm * norm + Z * Z) - el_e2 el * el_a el)).
+Proof. intros el Z norm lat. exact (latitude_body_derivative_bound el Z norm lat). Qed.
+Print Assumptions C01_latitude_body_derivative_bound.
+
+(* the interval the iterates live in: between the geocentric latitude atan(Z/norm) and the pole on the side of Z *)
+Theorem C01_invariant_interval : forall Z norm x,
+  lat_J Z norm x <->
+  (- PI / 2 < x < PI / 2 /\ (0 <= Z -> atan (Z / norm) <= x) /\ (Z <= 0 -> x <= atan (Z / norm))).
+Proof. intros Z norm x. exact (iff_refl _). Qed.
+Print Assumptions C01_invariant_interval.
+
+(* 2. contraction with q = 1.04 e2 <= 0.0104: for p = toECEF(lat0, lon0, h) in the domain the interval contains the true
+   latitude (a fixed point) and the first guess of toWGS84, is mapped into itself by the body, the denominator D stays
+   in (0,1] on it, and the body is q-Lipschitz on it (mean value theorem).  No neighbourhood of the poles is excluded. *)
+Theorem C01_latitude_contraction : forall (el : ellipsoid (T:=R)) lat0 lon0 h,
+  0 < el_a el -> 0 <= el_e2 el <= / 100 -> - PI / 2 < lat0 < PI / 2 -> - el_a el / 100 <= h ->
+  let p := toECEF ROps el (mkGeo lat0 lon0 h) in
+  let Z := vz p in let norm := hnorm ROps (vx p) (vy p) in
+  let g := lat_body ROps el Z norm in
+  let q := 26 / 25 * el_e2 el in
+  q <= 13 / 1250 /\
+  lat_J Z norm lat0 /\ g lat0 = lat0 /\
+  lat_J Z norm (lat_first_guess ROps el (vx p) (vy p) Z) /\
+  (forall x, lat_J Z norm x -> lat_J Z norm (g x)) /\
+  (forall x, lat_J Z norm x -> 0 < lat_den el norm x <= 1) /\
+  (forall x y, lat_J Z norm x -> lat_J Z norm y -> Rabs (g y - g x) <= q * Rabs (y - x)).
+Proof. intros el lat0 lon0 h. exact (latitude_contraction el lat0 lon0 h). Qed.
+Print Assumptions C01_latitude_contraction.
+
+(* away from the poles (cos lat0 >= 1/97, i.e. |lat0| <= 89.4 deg: the point is farther than a e2 from the axis) the
+   denominator is positive at every latitude and the bound holds for ALL pairs of reals.  Closer to the axis this is
+   false: D changes sign at some latitude between the equator and atan(Z/norm), where the body jumps. *)
+Theorem C01_latitude_contraction_global : forall (el : ellipsoid (T:=R)) lat0 lon0 h,
+  0 < el_a el -> 0 <= el_e2 el <= / 100 -> - PI / 2 < lat0 < PI / 2 -> / 97 <= cos lat0 -> - el_a el / 100 <= h ->
+  let p := toECEF ROps el (mkGeo lat0 lon0 h) in
+  let Z := vz p in let norm := hnorm ROps (vx p) (vy p) in
+  let g := lat_body ROps el Z norm in
+  el_a el * el_e2 el < norm /\
+  (forall x, 0 < lat_den el norm x) /\
+  forall x y, Rabs (g y - g x) <= 26 / 25 * el_e2 el * Rabs (y - x).
+Proof. intros el lat0 lon0 h. exact (latitude_contraction_global el lat0 lon0 h). Qed.
+Print Assumptions C01_latitude_contraction_global.
+
+(* 3a. unconditional exit accuracy of the latitude: whenever toWGS84 returns, q eps/(1-q) <= 1.1e-13 rad *)
+Theorem C01_roundtrip_latitude_accuracy : forall (el : ellipsoid (T:=R)) fuel lat lon h g,
+  0 < el_a el -> 0 <= el_e2 el <= / 100 -> - PI / 2 < lat < PI / 2 -> - el_a el / 100 <= h ->
+  toWGS84 ROps fuel el (toECEF ROps el (mkGeo lat lon h)) = Some g ->
+  let q := 26 / 25 * el_e2 el in
+  Rabs (g_lat g - lat) <= q * ecef_eps ROps / (1 - q) /\
+  q * ecef_eps ROps / (1 - q) <= 11 / 100 * / 1000000000000.
+Proof. intros el fuel lat lon h g. exact (roundtrip_latitude_accuracy el fuel lat lon h g). Qed.
+Print Assumptions C01_roundtrip_latitude_accuracy.
+
+(* 3b. geodetic -> ECEF -> geodetic within 1e-9 rad and 1 mm, longitude exact.  The height norm/cos(lat) - N(lat) has
+   sensitivity (N+h) tan(lat) to the latitude error, hence the bounds a <= 7e6 m, h <= 100 km and cos lat >= 1/600
+   (|lat| <= 89.904 deg; the property asks 89.9 deg).  At the poles themselves (norm = 0) the C++ divides by zero. *)
+Theorem C01_roundtrip_geodetic_accuracy : forall (el : ellipsoid (T:=R)) fuel lat lon h g,
+  0 < el_a el <= 7000000 -> 0 <= el_e2 el <= / 100 ->
+  - PI / 2 < lat < PI / 2 -> / 600 <= cos lat -> - PI < lon <= PI -> - el_a el / 100 <= h <= 100000 ->
+  toWGS84 ROps fuel el (toECEF ROps el (mkGeo lat lon h)) = Some g ->
+  g_lon g = lon /\ Rabs (g_lat g - lat) <= / 1000000000 /\ Rabs (g_alt g - h) <= / 1000.
+Proof. intros el fuel lat lon h g. exact (roundtrip_geodetic_accuracy el fuel lat lon h g). Qed.
+Print Assumptions C01_roundtrip_geodetic_accuracy.
+
+(* 4. termination: the C++ loop `while (delta > EPSILON)` has no iteration cap; the model's fuel counts passes and
+   None means "more than fuel passes".  Over the reals the step shrinks by q at every pass from at most PI, and
+   PI * 0.0104^6 <= 1e-11 = EPSILON: at most 7 passes on the whole domain. *)
+Theorem C01_latitude_loop_terminates : forall (el : ellipsoid (T:=R)) fuel lat lon h,
+  0 < el_a el -> 0 <= el_e2 el <= / 100 -> - PI / 2 < lat < PI / 2 -> - el_a el / 100 <= h ->
+  (7 <= fuel)%nat ->
+  exists g, toWGS84 ROps fuel el (toECEF ROps el (mkGeo lat lon h)) = Some g.
+Proof. intros el fuel lat lon h. exact (roundtrip_terminates el fuel lat lon h). Qed.
+Print Assumptions C01_latitude_loop_terminates.
+
+(* 3 + 4: the round trip geodetic -> ECEF -> geodetic of the property statement, over the reals *)
+Theorem C01_roundtrip_geodetic : forall (el : ellipsoid (T:=R)) fuel lat lon h,
+  0 < el_a el <= 7000000 -> 0 <= el_e2 el <= / 100 ->
+  - PI / 2 < lat < PI / 2 -> / 600 <= cos lat -> - PI < lon <= PI -> - el_a el / 100 <= h <= 100000 ->
+  (7 <= fuel)%nat ->
+  exists g, toWGS84 ROps fuel el (toECEF ROps el (mkGeo lat lon h)) = Some g /\
+    g_lon g = lon /\ Rabs (g_lat g - lat) <= / 1000000000 /\ Rabs (g_alt g - h) <= / 1000.
+Proof. intros el fuel lat lon h. exact (roundtrip_geodetic_total el fuel lat lon h). Qed.
+Print Assumptions C01_roundtrip_geodetic.
+
+(* non-vacuity of the near-Earth domain: GRS80 at latitude 89.9 deg, height -11 km *)
+Example C01_near_earth_domain_satisfiable :
+  let el := grs80 ROps in
+  0 < el_a el <= 7000000 /\ 0 <= el_e2 el <= / 100 /\
+  - PI / 2 < 899 / 1800 * PI < PI / 2 /\ / 600 <= cos (899 / 1800 * PI) /\
+  - el_a el / 100 <= -11000 <= 100000.
+Proof. exact grs80_in_domain. Qed.
+
+(* 5. the reverse composition Cartesian -> geodetic -> Cartesian of the property statement, over the reals, for an
+   ARBITRARY point (no geodetic pre-image assumed) with |p| >= 0.98 a inside the cone |Z| <= 600 norm (geocentric
+   latitude <= 89.904 deg): toWGS84 returns within 7 passes and toECEF of the result reproduces X and Y exactly
+   (the height formula norm/cos(lat) - N makes the horizontal part exact for ANY latitude) and Z within 1 mm
+   (Z' - Z = Z (D(lat) - D(prev))/D(prev) with |lat - prev| <= EPSILON at the exit and D >= 0.98 on the interval). *)
+From Romea Require Import GeodesyCartesian.
+
+Theorem C01_roundtrip_cartesian : forall (el : ellipsoid (T:=R)) fuel X Y Z,
+  0 < el_a el <= 7000000 -> 0 <= el_e2 el <= / 100 ->
+  let norm := hnorm ROps X Y in
+  0 < norm -> 98 / 100 * el_a el <= sqrt (norm * norm + Z * Z) -> Rabs Z <= 600 * norm ->
+  (7 <= fuel)%nat ->
+  exists g, toWGS84 ROps fuel el (mkV3 X Y Z) = Some g /\
+    let p' := toECEF ROps el g in vx p' = X /\ vy p' = Y /\ Rabs (vz p' - Z) <= / 1000.
+Proof. intros el fuel X Y Z. exact (roundtrip_cartesian el fuel X Y Z). Qed.
+Print Assumptions C01_roundtrip_cartesian.
+
+(* every Cartesian point produced from the geodetic domain (|lat| <= 89.904 deg, h >= -a/100) meets the hypotheses of
+   C01_roundtrip_cartesian *)
+Theorem C01_cartesian_domain_covers_geodetic : forall (el : ellipsoid (T:=R)) lat lon h,
+  0 < el_a el -> 0 <= el_e2 el <= / 100 -> - PI / 2 < lat < PI / 2 -> / 600 <= cos lat -> - el_a el / 100 <= h ->
+  let p := toECEF ROps el (mkGeo lat lon h) in let norm := hnorm ROps (vx p) (vy p) in
+  0 < norm /\ 98 / 100 * el_a el <= sqrt (norm * norm + vz p * vz p) /\ Rabs (vz p) <= 600 * norm.
+Proof. intros el lat lon h. exact (toECEF_in_cartesian_domain el lat lon h). Qed.
+Print Assumptions C01_cartesian_domain_covers_geodetic.
+
+Example C01_cartesian_domain_satisfiable :
+  let el := grs80 ROps in let norm := hnorm ROps 6000000 0 in
+  0 < norm /\ 98 / 100 * el_a el <= sqrt (norm * norm + 2000000 * 2000000) /\ Rabs 2000000 <= 600 * norm.
+Proof. exact cartesian_domain_example. Qed.
 
 (* ---- syntactic tie of the forward map to the current source (gen/SrcFuns.v is regenerated from the clang AST of
    src/geodesy/ECEFConverter.cpp on every run) ---- *)
